@@ -16,3 +16,6 @@ struct Reg { Reg(const Check &c) { register_check(c); } };
 std::string gen_known_config(Rng &r, const World &w, CfgSpec *out = nullptr); // config whose record the model predicts exactly
 std::string gen_modelled_format(Rng &r, const std::string &marker, size_t maxlen = 400);
 std::string gen_chain(Rng &r, const World &w, int maxel = 4);
+
+struct RecJudge { Verdict v; bool conclusive = false; std::string sig; Expected exp; };
+RecJudge judge_record(const CallView &cv, const RunResult &r, bool require_before_exec = true);
